@@ -14,6 +14,7 @@ EXPLANATION = (
     "author+tag key compares the fetched event's kind and whole d value before returning or removing it; the "
     "address-marker key identifies the address exactly. The at-most-one invariant over all histories is not decided.")
 EXPLANATION += " Also decided: the three kind-class predicates are evaluated, from their branch conditions, for every one of the 65536 kind numbers and must accept exactly NIP-01's sets."
+EXPLANATION += ' Also decided: the address lookups pass over a stored event only when its kind or d value differs from the address asked for; the removal helpers scan from Time::min() to the `until` they are given, unchanged.'
 ASSUMPTIONS = []
 
 
